@@ -54,7 +54,8 @@ def cases(shard, rnd):
                 for d in (-1, 0, 1):
                     pts.add(s * (1 << k) + d)
         pts.update([2**63, 2**63 + 1, -2**63 - 1, -2**63 - 2, 10**25,
-                    -10**25])
+                    -10**25, 10**4299, 10**4300, -10**4301, 10**6000,
+                    2**20000])
         for legacy in (False, True):
             for n in sorted(pts):
                 for pos in ('top', 'array', 'table', 'nested3', 'array12',
@@ -76,7 +77,7 @@ def cases(shard, rnd):
             lo, hi = (-(1 << bits - 1), (1 << bits - 1) - 1) if signed \
                 else (0, (1 << bits) - 1)
             for v in (lo - 2, lo - 1, lo, lo + 1, hi - 1, hi, hi + 1, hi + 2,
-                      0, -1, 2**70, -2**70):
+                      0, -1, 2**70, -2**70, 10**4300, -10**5000):
                 yield {'t': 'fixed', 'enc': name, 'v': v, 'lo': lo, 'hi': hi}
     else:
         for _ in range(shard['seqs']):
@@ -91,6 +92,14 @@ def cases(shard, rnd):
                    'probes': [rnd.choice([200, 40000, 65535, 3000000000,
                                           4294967295, -5, 2**40])
                               for _ in range(200)]}
+
+
+def _n(v):
+    """Render an integer for a message without tripping the int->str digit
+    limit of Python >= 3.11."""
+    if isinstance(v, int) and v.bit_length() > 256:
+        return '<%s%d-bit integer>' % ('-' if v < 0 else '', v.bit_length())
+    return '%d' % v if isinstance(v, int) else repr(v)
 
 
 def expected(n, legacy):
@@ -111,13 +120,13 @@ def _check_top(n, legacy, rec, case, fn_name):
     if exp is None:
         if e.ok:
             rec.violation('out-of-range-not-refused:%s' % mode,
-                          'encode.%s(%d) returned %s instead of TypeError'
-                          % (fn_name, n, common.hexs(e.value)), case)
+                          'encode.%s(%s) returned %s instead of TypeError'
+                          % (fn_name, _n(n), common.hexs(e.value)), case)
             return False
         if e.exc_type != 'TypeError':
             rec.violation('out-of-range-wrong-exception:%s' % e.exc_type,
-                          'encode.%s(%d) raised %s, not TypeError'
-                          % (fn_name, n, e.describe()), case)
+                          'encode.%s(%s) raised %s, not TypeError'
+                          % (fn_name, _n(n), e.describe()[:200]), case)
             return False
         rec.seen('refused', mode)
         return True
@@ -125,8 +134,8 @@ def _check_top(n, legacy, rec, case, fn_name):
     if not e.ok:
         rec.violation('ladder-refused:%s:%s:%s' % (
             mode, tag.decode(), 'neg' if n < 0 else 'nonneg'),
-            'encode.%s(%d) %s; the ladder selects tag %s'
-            % (fn_name, n, e.describe(), tag.decode()), case)
+            'encode.%s(%s) %s; the ladder selects tag %s'
+            % (fn_name, _n(n), e.describe(), tag.decode()), case)
         return False
     got = e.value
     if got[:1] != tag or len(got) != 1 + ln:
@@ -195,8 +204,8 @@ def run_case(case, rec):
                 if e.ok or e.exc_type != 'TypeError':
                     rec.violation(
                         'out-of-range-not-refused-nested:%s' % mode,
-                        '%s with %d inside: %s (expected TypeError)'
-                        % (fn.__name__, n, e.describe()), case)
+                        '%s with %s inside: %s (expected TypeError)'
+                        % (fn.__name__, _n(n), e.describe()[:200]), case)
                 else:
                     rec.seen('refused', mode + ':' + pos)
                 return
@@ -245,13 +254,13 @@ def run_case(case, rec):
             inside = case['lo'] <= v <= case['hi']
             if inside and not e.ok:
                 rec.violation('fixed-width-refused:' + case['enc'],
-                              'encode.%s(%d) %s' % (case['enc'], v,
+                              'encode.%s(%s) %s' % (case['enc'], _n(v),
                                                     e.describe()), case)
             elif not inside and (e.ok or e.exc_type != 'TypeError'):
                 rec.violation('fixed-width-out-of-range:%s:%s' % (
                     case['enc'], 'returned' if e.ok else e.exc_type),
-                    'encode.%s(%d) %s; expected TypeError'
-                    % (case['enc'], v, e.describe()), case)
+                    'encode.%s(%s) %s; expected TypeError'
+                    % (case['enc'], _n(v), e.describe()[:200]), case)
             else:
                 rec.seen('fixed', '%s:%s' % (case['enc'], 'in' if inside
                                              else 'refused'))
